@@ -107,16 +107,19 @@ PROPS = {
         'explanation': 'mirror invariant through the message queue proved for every bSei message and every mirror message; Balance/TokenInfo vs Holder/State compared for the whole cast after every operation of token histories by holders, spenders and the hub',
     },
     'C02': {
+        'corpus': ['undelegation-refused.ops'],
         'families': [gen('registry', 25, 120), gen('mixed', 20, 120), gen('pricing', 20, 120), gen('release', 10, 120)],
         'slice': PRICING_KINDS + [r'hub\.ugi', r'env\.slash', r'reg\..*'],
         'explanation': 'delegate messages sum to the payment and target registered validators (via C12), books <= delegations after every check, undelegation exact; stored pool totals vs chain delegations and hub bank balance compared after every hub transaction, registry changing mid-history',
     },
     'C07': {
+        'corpus': ['undelegation-refused.ops'],
         'families': [gen('release', 30, 120), gen('mixed', 20, 120), gen('token', 10, 120)],
         'slice': [r'tok\.send\.unbond', r'tok\.sendfrom\.unbond', r'hub\.withdraw', r'hub\.receive', r'env\.advance'],
         'explanation': 'claim-sum invariant proved over unbond (both tokens), batch closing, release and withdrawal; on the implementation the sum of UnbondRequests over all users per batch is compared with CurrentBatch / AllHistory after every step, with Send and SendFrom, both tokens in one batch, across epoch boundaries',
     },
     'C08': {
+        'corpus': ['undelegation-refused.ops'],
         'families': [gen('release', 35, 120), gen('mixed', 20, 120), gen('dust', 10, 120)],
         'slice': [r'tok\.send\.unbond', r'tok\.sendfrom\.unbond', r'hub\.withdraw', r'env\.advance', r'hub\.uparams'],
         'explanation': 'epoch gate, single write of consecutive batch ids, release only after the unbonding period, finality of released entries proved on the model; AllHistory snapshots compared between all steps with time advances landing on, one before and one after the epoch and maturity boundaries',
